@@ -1096,6 +1096,224 @@ def _inline_method_aliases(fnode):
     return changed
 
 
+# ---------------------------------------------------------------------------------------------------
+# table-driven code: rows of a literal tuple unrolled, lookups in constant tables by a boolean expanded
+def _table_literal(model, fn, expr, _hops=0):
+    """The literal (ast.Dict / ast.Tuple) bound once to a module-level name - possibly imported by name from another
+    repository module - or to a class attribute (`self.X`, `cls.X`, `Class.X`) that nothing rebinds or mutates."""
+    import os
+
+    def module_literal(path, name, hops):
+        tree = model.trees.get(path, (None, None))[0]
+        if tree is None or hops > 2:
+            return None
+        binds = [st for st in tree.body if isinstance(st, (ast.Assign, ast.AnnAssign)) and any(isinstance(t, ast.Name) and t.id == name for t in (st.targets if isinstance(st, ast.Assign) else [st.target]))]
+        if len(binds) == 1 and getattr(binds[0], "value", None) is not None:
+            v = binds[0].value
+            if isinstance(v, (ast.Dict, ast.Tuple)) and not _mutated(tree, name):
+                return v
+            return None
+        if binds:
+            return None
+        for st in tree.body:
+            if isinstance(st, ast.ImportFrom) and st.module:
+                for al in st.names:
+                    if (al.asname or al.name) == name:
+                        if st.level >= 1:
+                            base = os.path.dirname(path)
+                            for _ in range(st.level - 1):
+                                base = os.path.dirname(base)
+                            cand = os.path.join(base, *st.module.split(".")) + ".py"
+                            cands = [cand] if cand in model.trees else []
+                        else:
+                            tail = os.path.join(*st.module.split(".")) + ".py"
+                            cands = [p_ for p_ in model.trees if p_.endswith(os.sep + tail) or p_ == tail]
+                        if len(cands) == 1:
+                            return module_literal(cands[0], al.name, hops + 1)
+        return None
+
+    def _mutated(tree, name, attr=False):
+        for n in ast.walk(tree):
+            tgt = None
+            if isinstance(n, ast.Subscript) and isinstance(n.ctx, (ast.Store, ast.Del)):
+                tgt = n.value
+            elif isinstance(n, ast.Call) and isinstance(n.func, ast.Attribute) and n.func.attr not in ("get", "keys", "values", "items", "copy", "index", "count"):
+                tgt = n.func.value
+            elif isinstance(n, ast.Attribute) and isinstance(n.ctx, (ast.Store, ast.Del)) and attr and n.attr == name:
+                return True
+            elif isinstance(n, ast.Global) and name in n.names:
+                return True
+            if tgt is not None:
+                if not attr and isinstance(tgt, ast.Name) and tgt.id == name:
+                    return True
+                if attr and isinstance(tgt, ast.Attribute) and tgt.attr == name:
+                    return True
+        return False
+
+    if isinstance(expr, ast.Name):
+        if any(isinstance(x, ast.Name) and x.id == expr.id and isinstance(x.ctx, ast.Store) for x in ast.walk(fn.node)) or expr.id in fn.params:
+            return None
+        return module_literal(fn.path, expr.id, 0)
+    if isinstance(expr, ast.Attribute) and isinstance(expr.value, ast.Name):
+        owner = None
+        if fn.cls and fn.params and expr.value.id == fn.params[0] and fn.is_method and not fn.is_staticmethod:
+            owner = fn.cls
+        elif expr.value.id in model.classes:
+            owner = expr.value.id
+        if owner is None:
+            return None
+        found = []
+        for c in [owner] + [b for b in model.family(owner) if b != owner]:
+            ci = model.classes.get(c)
+            node = getattr(ci, "node", None)
+            if node is None:
+                continue
+            for st in node.body:
+                if isinstance(st, (ast.Assign, ast.AnnAssign)) and any(isinstance(t, ast.Name) and t.id == expr.attr for t in (st.targets if isinstance(st, ast.Assign) else [st.target])):
+                    found.append((c, st))
+        if len(found) != 1 or getattr(found[0][1], "value", None) is None or not isinstance(found[0][1].value, (ast.Dict, ast.Tuple)):
+            return None
+        for path_, (tree, _src) in model.trees.items():
+            if path_.endswith("posc.py"):
+                continue
+            if _mutated(tree, expr.attr, attr=True):
+                return None
+        return found[0][1].value
+    return None
+
+
+def _bool_entries(table, sl):
+    """For a lookup `table[sl]` whose key depends on one `bool(E)`: (E, entry when true, entry when false), else None."""
+    def const_eq(k, parts):
+        if isinstance(k, ast.Constant) and len(parts) == 1:
+            return k.value is parts[0] or (k.value == parts[0] and type(k.value) is type(parts[0]))
+        if isinstance(k, ast.Tuple) and len(k.elts) == len(parts):
+            return all(isinstance(e, ast.Constant) and (e.value is p or (e.value == p and type(e.value) is type(p))) for e, p in zip(k.elts, parts))
+        return False
+
+    def is_bool_call(e):
+        return isinstance(e, ast.Call) and isinstance(e.func, ast.Name) and e.func.id == "bool" and len(e.args) == 1 and not e.keywords
+
+    parts = sl.elts if isinstance(sl, ast.Tuple) else [sl]
+    bools = [i for i, e in enumerate(parts) if is_bool_call(e)]
+    if len(bools) != 1 or not all(isinstance(e, ast.Constant) for i, e in enumerate(parts) if i != bools[0]):
+        return None
+    E = parts[bools[0]].args[0]
+    out = []
+    for v in (True, False):
+        key = [e.value if i != bools[0] else v for i, e in enumerate(parts)]
+        entry = None
+        if isinstance(table, ast.Dict):
+            hits = [val for k, val in zip(table.keys, table.values) if k is not None and const_eq(k, key)]
+            if len(hits) == 1:
+                entry = hits[0]
+        elif isinstance(table, ast.Tuple) and len(parts) == 1 and len(table.elts) == 2:
+            entry = table.elts[1 if v else 0]
+        if entry is None:
+            return None
+        out.append(entry)
+    return E, out[0], out[1]
+
+
+def _expand_tables_body(model, fn, stmts, budget):
+    out = []
+    changed = False
+    i = 0
+    while i < len(stmts):
+        st = stmts[i]
+        for fld in ("body", "orelse", "finalbody"):
+            sub = getattr(st, fld, None)
+            if isinstance(sub, list) and sub and isinstance(sub[0], ast.stmt) and not isinstance(st, (ast.FunctionDef, ast.AsyncFunctionDef, ast.ClassDef)):
+                new, ch = _expand_tables_body(model, fn, sub, budget)
+                if ch:
+                    setattr(st, fld, new)
+                    changed = True
+        for h in getattr(st, "handlers", []) or []:
+            new, ch = _expand_tables_body(model, fn, h.body, budget)
+            if ch:
+                h.body = new
+                changed = True
+        # (1) `for a, b, c in ((x1, y1, z1), (x2, y2, z2)): BODY` -> BODY with the row substituted, once per row
+        if isinstance(st, ast.For) and not st.orelse and isinstance(st.iter, ast.Tuple) and 1 <= len(st.iter.elts) <= 4 and isinstance(st.target, ast.Tuple) \
+                and all(isinstance(t, ast.Name) for t in st.target.elts) and all(isinstance(r, ast.Tuple) and len(r.elts) == len(st.target.elts) for r in st.iter.elts) \
+                and not _own_breaks(st.body) and not any(isinstance(x, ast.Continue) for b in st.body for x in ast.walk(b)):
+            names = [t.id for t in st.target.elts]
+            simple = all(isinstance(e, (ast.Name, ast.Constant)) or (isinstance(e, ast.Attribute) and isinstance(e.value, ast.Name)) for r in st.iter.elts for e in r.elts)
+            stored = {x.id for b in st.body for x in ast.walk(b) if isinstance(x, ast.Name) and isinstance(x.ctx, (ast.Store, ast.Del))}
+            read_roots = {x.id for r in st.iter.elts for x in ast.walk(r) if isinstance(x, ast.Name)}
+            used_after = any(isinstance(x, ast.Name) and x.id in names for later in stmts[i + 1:] for x in ast.walk(later))
+            if simple and not (stored & (set(names) | read_roots)) and not used_after and budget[0] > 0:
+                budget[0] -= 1
+                for r in st.iter.elts:
+                    env = {n_: e for n_, e in zip(names, r.elts)}
+                    body = [_SubstExpr(env).visit(b) for b in _cp(st.body)]
+                    new, _ = _expand_tables_body(model, fn, body, budget)
+                    out += new
+                changed = True
+                i += 1
+                continue
+        # (2) `x, y = TABLE[bool(E)]` (or any simple statement reading such an entry) followed by the rest of the block
+        if isinstance(st, (ast.Assign, ast.Expr, ast.Assert, ast.Return, ast.AugAssign)) and budget[0] > 0:
+            hit = None
+            for x in ast.walk(st):
+                if isinstance(x, ast.Subscript) and isinstance(x.ctx, ast.Load):
+                    tb = _table_literal(model, fn, x.value)
+                    if tb is not None:
+                        be = _bool_entries(tb, x.slice)
+                        if be is not None:
+                            hit = (x, be)
+                            break
+            rest = stmts[i + 1:]
+            if hit is not None and sum(1 for r_ in rest for _ in ast.walk(r_) if isinstance(_, ast.stmt)) <= 40:
+                budget[0] -= 1
+                x, (E, ent_t, ent_f) = hit
+                arms = []
+                for ent in (ent_t, ent_f):
+                    c = _clone(st)
+                    # locate the clone of x by position in the walk
+                    idx = [k for k, y in enumerate(ast.walk(st)) if y is x][0]
+                    cx = list(ast.walk(c))[idx]
+                    _replace(c, cx, _clone(ent))
+                    arm, _ = _desugar_body([c])
+                    tail, _ = _expand_tables_body(model, fn, _cp(rest), budget)
+                    arms.append(arm + tail)
+                new_if = ast.copy_location(ast.If(test=_clone(E), body=arms[0], orelse=arms[1]), st)
+                out.append(new_if)
+                return out, True
+        out.append(st)
+        i += 1
+    return out, changed
+
+
+class _SubstExpr(ast.NodeTransformer):
+    def __init__(self, env):
+        self.env = env
+
+    def visit_Name(self, node):
+        if isinstance(node.ctx, ast.Load) and node.id in self.env:
+            return _clone(self.env[node.id])
+        return node
+
+
+def expand_tables(model):
+    """Table-driven spellings of a case split are expanded back into the case split (DESIGN 11.2a item 9)."""
+    n = 0
+    for q, fn in list(model.funcs.items()):
+        if fn.path.endswith("posc.py"):
+            continue
+        src = None
+        if not any(isinstance(x, ast.Subscript) or (isinstance(x, ast.For) and isinstance(x.iter, ast.Tuple)) for x in ast.walk(fn.node)):
+            continue
+        new, ch = _expand_tables_body(model, fn, fn.node.body, [12])
+        if ch:
+            fn.node.body = new
+            ast.fix_missing_locations(fn.node)
+            relink(fn.node)
+            n += 1
+    model.tables_expanded = n
+    return n
+
+
 def desugar(model):
     """`return a if c else b` and `x = a if c else b` become if/else statements, so that every rule sees
     the branch structure (conditions as dominating facts, one return per alternative)."""
